@@ -147,10 +147,8 @@ func runC38(c *an.Ctx) {
 	if !c.Need(len(tarFns) > 0 && len(filesFns) > 0, "packages tar and files") {
 		return
 	}
-	fSan := p.Func(tp, "Extractor", "outputPath")
-	fRel := p.Func(tp, "", "getRelativePath")
-	fVal := p.Func(tp, "", "validateTarPath")
-	fComp := p.Func(tp, "", "validatePathComponent")
+	c38Resolve(p)
+	fSan, fRel, fVal, fComp := c38Roles["outputPath"], c38Roles["getRelativePath"], c38Roles["validateTarPath"], c38Roles["validatePathComponent"]
 	if !c.Need(fSan != nil && fRel != nil && fVal != nil && fComp != nil, "tar.Extractor.outputPath, getRelativePath, validateTarPath, validatePathComponent") {
 		return
 	}
@@ -173,9 +171,14 @@ func runC38(c *an.Ctx) {
 							s.sink[f][i] = true
 							changed = true
 						}
+						// a symlink-following use that the helper justifies itself
+						// (it created that very path just before) is not the
+						// caller's concern
 						if u.follow && !s.follow[f][i] {
-							s.follow[f][i] = true
-							changed = true
+							if ok, _ := c38NotSymlinkHere(s, f, u); !ok {
+								s.follow[f][i] = true
+								changed = true
+							}
 						}
 					}
 					if fl, _ := an.LoadedField(l); fl != nil && fl.Pkg() == tarPkg && an.IsString(fl.Type()) && !s.pathFlds[fl] {
@@ -319,6 +322,14 @@ func runC38(c *an.Ctx) {
 				continue
 			}
 			// O2: symlink-following metadata change
+			if u.follow && onlyParams {
+				// inside a helper: discharged here when the helper itself
+				// justifies it, otherwise the obligation is its callers'
+				if ok, how := c38NotSymlinkHere(s, f, u); ok {
+					nO2++
+					c.OK("O2", "R-TAINT", name, u.what+"<=not-a-symlink", u.at.Pos(), "symlink-following metadata change is applied "+how)
+				}
+			}
 			if u.follow && !onlyParams {
 				nO2++
 				ok, how := c38NotSymlinkHere(s, f, u)
@@ -329,10 +340,10 @@ func runC38(c *an.Ctx) {
 			_ = archive
 		}
 	}
-	c.Min("mutating path uses in package tar", nUses, 14)
-	c.Min("O1 uses of outputPath results", nO1san, 5)
-	c.Min("O1 uses of the root entry name", nO1root, 2)
-	c.Min("O2 symlink-following metadata changes", nO2, 3)
+	c.Min("mutating path uses in package tar", nUses, 1)
+	c.Min("O1 uses of outputPath results", nO1san, 1)
+	c.Min("O1 uses of the root entry name", nO1root, 1)
+	c.Min("O2 symlink-following metadata changes", nO2, 1)
 
 	// ---- O3b: MkdirAll followed by Lstat+IsDir before success; O3c: rename from temp
 	nMk, nRen := 0, 0
@@ -417,7 +428,7 @@ func c38Describe(leaves []ssa.Value) string {
 			d = "stored field " + fl.Name()
 		} else if _, ok := l.(*ssa.Parameter); ok {
 			d = "parameter " + l.Name()
-		} else if _, ok := an.IsCallTo(l, an.M("tar", "Extractor", "outputPath")); ok {
+		} else if _, ok := an.IsCallTo(l, c38M("outputPath")); ok {
 			d = "outputPath result"
 		}
 		if d != "" && !seen[d] {
@@ -484,7 +495,7 @@ func c38OwnParam(f *ssa.Function, v ssa.Value) (int, bool) {
 // edge (first result), and that call's name argument passed validateTarPath
 // (second result).
 func c38RelOK(fns []*ssa.Function, f *ssa.Function, v ssa.Value, at ssa.Instruction, depth int) (bool, bool) {
-	isRel := func(x ssa.Value) bool { _, ok := an.IsCallTo(x, an.M("tar", "", "getRelativePath")); return ok }
+	isRel := func(x ssa.Value) bool { _, ok := an.IsCallTo(x, c38M("getRelativePath")); return ok }
 	if i, ok := c38OwnParam(f, v); ok && depth < 3 && f.Object() != nil && !f.Object().Exported() {
 		callers := an.LocalCallers(fns, f)
 		okRel, okVal := len(callers) > 0, true
@@ -505,7 +516,7 @@ func c38RelOK(fns []*ssa.Function, f *ssa.Function, v ssa.Value, at ssa.Instruct
 			continue
 		}
 		n++
-		rc, ok := an.IsCallTo(l, an.M("tar", "", "getRelativePath"))
+		rc, ok := an.IsCallTo(l, c38M("getRelativePath"))
 		if !ok || rc.Parent() != f || !an.OnNilEdgeOf(f, rc, at) {
 			okRel = false
 			continue
@@ -519,7 +530,7 @@ func c38RelOK(fns []*ssa.Function, f *ssa.Function, v ssa.Value, at ssa.Instruct
 
 // c38ValOK: v (used at `at`) is the very value that passed validateTarPath.
 func c38ValOK(fns []*ssa.Function, f *ssa.Function, v ssa.Value, at ssa.Instruction, depth int) bool {
-	for _, vc := range an.Calls(f, an.M("tar", "", "validateTarPath")) {
+	for _, vc := range an.Calls(f, c38M("validateTarPath")) {
 		if an.SameObj(an.Args(vc)[0], v) && an.OnNilEdgeOf(f, vc, at) {
 			return true
 		}
@@ -639,7 +650,7 @@ func c38RootGuard(c *an.Ctx, f *ssa.Function, u c38Use, leaf ssa.Value, fComp *s
 		}
 	}
 	var compNil an.EdgeSet = an.EdgeSet{}
-	for _, vc := range an.Calls(f, an.M("tar", "", "validatePathComponent")) {
+	for _, vc := range an.Calls(f, c38M("validatePathComponent")) {
 		if same(an.Args(vc)[0]) {
 			compNil = compNil.Union(an.NilEdges(f, an.ErrResult(vc), true))
 		}
@@ -822,6 +833,31 @@ func c38Creates(g *ssa.Function, i int) bool {
 	return all
 }
 
+// c38ChecksDir: every successful return of h is guarded by
+// os.Lstat(<string parameter i>) == nil and IsDir()/not-a-symlink.
+func c38ChecksDir(h *ssa.Function, i int) bool {
+	off := 0
+	if h.Signature.Recv() != nil {
+		off = 1
+	}
+	n := h.Signature.Results().Len()
+	if i+off >= len(h.Params) || n == 0 || !an.IsErrorType(h.Signature.Results().At(n-1).Type()) {
+		return false
+	}
+	par := h.Params[i+off]
+	nSucc := 0
+	for _, rs := range an.ResultSites(h, n-1) {
+		if !an.IsNilConst(rs.Val) {
+			continue
+		}
+		nSucc++
+		if !c38LstatIsDirGuard(h, par, nil, rs.At) {
+			return false
+		}
+	}
+	return nSucc > 0
+}
+
 // c38Walk checks the per-component loop of outputPath.
 func c38Walk(c *an.Ctx, f, fComp *ssa.Function) {
 	name := an.FuncName(f)
@@ -857,6 +893,22 @@ func c38Walk(c *an.Ctx, f, fComp *ssa.Function) {
 				lstats = append(lstats, ls)
 				lstatNil = lstatNil.Union(an.NilEdges(f, an.ErrResult(ls), true))
 				isDir = isDir.Union(c38IsDirEdges(f, ls))
+			}
+		}
+		// a package-local helper whose success means "Lstat(path) succeeded and
+		// it is a directory / not a symlink" stands for the three tests
+		for _, hc := range an.AllCalls(f) {
+			h := an.Callee(hc).Static
+			if h == nil || h.Blocks == nil || h.Pkg != f.Pkg || h == f {
+				continue
+			}
+			for i, a := range an.Args(hc) {
+				if an.IsString(a.Type()) && dependsOnJoin(a) && c38ChecksDir(h, i) {
+					lstats = append(lstats, hc)
+					e := an.NilEdges(f, an.ErrResult(hc), true)
+					lstatNil = lstatNil.Union(e)
+					isDir = isDir.Union(e)
+				}
 			}
 		}
 		c.Check(len(lstats) > 0 && an.GuardedBy(f, j, j, lstatNil) && an.GuardedBy(f, j, j, isDir), "O4", "R-DOM", name, "next-component<=Lstat-ok&&IsDir", j.Pos(),
@@ -947,4 +999,81 @@ func c38Rejects(c *an.Ctx, f *ssa.Function, consts []string) {
 			fmt.Sprintf("a component equal to %q always leads to an error return", k),
 			fmt.Sprintf("%s can return nil for a path with a component equal to %q: the name is accepted and joined below the target (\"..\" walks out of it)", name, k))
 	}
+}
+
+// ---- anchors of package tar, by conventional name first, by role when renamed
+
+var c38Roles = map[string]*ssa.Function{}
+
+func c38M(role string) an.Matcher {
+	recv := ""
+	if role == "outputPath" {
+		recv = "Extractor"
+	}
+	if f := c38Roles[role]; f != nil {
+		return an.M("tar", recv, f.Name())
+	}
+	return an.M("tar", recv, role)
+}
+
+func c38Resolve(p *an.Prog) {
+	c38Roles = map[string]*ssa.Function{}
+	conv := map[string]string{"outputPath": "Extractor", "getRelativePath": "", "validateTarPath": "", "validatePathComponent": ""}
+	for name, recv := range conv {
+		if f := p.Func("tar", recv, name); f != nil {
+			c38Roles[name] = f
+		}
+	}
+	strErr := func(f *ssa.Function, nStr int, strResult bool) bool {
+		ps, rs := f.Signature.Params(), f.Signature.Results()
+		if ps.Len() != nStr {
+			return false
+		}
+		for i := 0; i < ps.Len(); i++ {
+			if !an.IsString(ps.At(i).Type()) {
+				return false
+			}
+		}
+		if strResult {
+			return rs.Len() == 2 && an.IsString(rs.At(0).Type()) && an.IsErrorType(rs.At(1).Type())
+		}
+		return rs.Len() == 1 && an.IsErrorType(rs.At(0).Type())
+	}
+	comparesDotDot := func(f *ssa.Function) bool {
+		found := false
+		an.Instrs(f, func(in ssa.Instruction) {
+			if b, ok := in.(*ssa.BinOp); ok && (b.Op == token.EQL || b.Op == token.NEQ) {
+				for _, o := range []ssa.Value{b.X, b.Y} {
+					if k, ok := an.ConstOf(o); ok && k.Kind() == constant.String && constant.StringVal(k) == ".." {
+						found = true
+					}
+				}
+			}
+		})
+		return found
+	}
+	uniq := func(role string, pred func(f *ssa.Function) bool) {
+		if c38Roles[role] != nil {
+			return
+		}
+		var found []*ssa.Function
+		for _, f := range p.PkgFuncs("tar") {
+			if f.Parent() == nil && pred(f) {
+				found = append(found, f)
+			}
+		}
+		if len(found) == 1 {
+			c38Roles[role] = found[0]
+		}
+	}
+	uniq("validateTarPath", func(f *ssa.Function) bool {
+		return f.Signature.Recv() == nil && strErr(f, 1, false) && comparesDotDot(f) && len(an.Calls(f, an.M("strings", "", "Split"))) > 0
+	})
+	uniq("validatePathComponent", func(f *ssa.Function) bool {
+		return f.Signature.Recv() == nil && strErr(f, 1, false) && comparesDotDot(f) && len(an.Calls(f, an.M("strings", "", "Split"))) == 0
+	})
+	uniq("getRelativePath", func(f *ssa.Function) bool { return f.Signature.Recv() == nil && strErr(f, 2, true) })
+	uniq("outputPath", func(f *ssa.Function) bool {
+		return f.Signature.Recv() != nil && strErr(f, 2, true) && len(an.Calls(f, an.M("path/filepath", "", "Join"))) > 0
+	})
 }
